@@ -360,7 +360,11 @@ def run(ctx):
                 ctx.oblige(rest_ok)
     ctx.oblige(mirror_ok, "search mirror reproduces the implementation")
     ctx.count("errors_compared_total", compared)
-    ctx.coverage["rule"] = ("grammars: the DESIGN §9 witness and separator-list variants of it, calculator, Corchuelo's, layered "
+    ctx.coverage["rule"] = ("corpus first: 4 calculator-like conflict-free grammars (calc, Corchuelo's, sum, sequence) x {no "
+                            "%avoid_insert, %avoid_insert on each single token (this also renumbers the tokens, i.e. reorders the "
+                            "search)} x ALL inputs of length 1-3 over the alphabet + a seeded sample of length 4-5, unit costs "
+                            "(search-order dependent losses such as a neighbour discarded instead of merged in the same-cost sweep "
+                            "show on inputs like `) (`); then generated grammars: the DESIGN §9 witness and separator-list variants of it, calculator, Corchuelo's, layered "
                             "expression variants, nullable-heavy, statement lists, reduced random, Java-like, Pager's, LR(1)-not-LALR, "
                             "precedence-resolved x %avoid_insert sets x cost functions (unit, random 1-5, extreme 1/255) x inputs "
                             "(sentences with 1-2 edits, truncated sentences, short random strings). A case = one ERROR of one input "
